@@ -208,19 +208,23 @@ impl PartialEq for Value_ {
             }
             (
                 Value_::EnumVariant {
-                    runtime_type: self_runtime_type,
+                    type_name: self_type_name,
                     variant_idx: self_variant_idx,
                     payload: self_payload,
                     ..
                 },
                 Value_::EnumVariant {
-                    runtime_type: other_runtime_type,
+                    type_name: other_type_name,
                     variant_idx: other_variant_idx,
                     payload: other_payload,
                     ..
                 },
             ) => {
-                self_runtime_type == other_runtime_type
+                // As with lists, we don't consider type arguments
+                // when comparing enum values: the runtime type of
+                // `Some(Dict["a" => [], "b" => [1]])` depends on
+                // the order that the dict items were written in.
+                self_type_name == other_type_name
                     && self_variant_idx == other_variant_idx
                     && self_payload == other_payload
             }
@@ -238,16 +242,20 @@ impl PartialEq for Value_ {
             ) => self_runtime_type == other_runtime_type && self_variant_idx == other_variant_idx,
             (
                 Value_::Struct {
+                    type_name: self_type_name,
                     fields: self_fields,
-                    runtime_type: self_runtime_type,
                     ..
                 },
                 Value_::Struct {
+                    type_name: other_type_name,
                     fields: other_fields,
-                    runtime_type: other_runtime_type,
                     ..
                 },
-            ) => self_runtime_type == other_runtime_type && self_fields == other_fields,
+            ) => {
+                // We don't consider type arguments when comparing
+                // struct values either.
+                self_type_name == other_type_name && self_fields == other_fields
+            }
             _ => false,
         }
     }
